@@ -117,7 +117,7 @@ def plan(tier, seed, nproc, scale):
         chunks = 128
         span = 0x110000 // chunks
         specs += [{"kind": "names", "seed": "%d/n%d" % (seed, i), "mode": "list", "lo": i * span, "hi": (i + 1) * span} for i in range(chunks)]
-    specs += [{"kind": "threads", "seed": "%d/t%d" % (seed, i), "runs": 2 if tier == "quick" else 30} for i in range(4 if tier == "quick" else shards)]
+    specs += [{"kind": "threads", "seed": "%d/t%d" % (seed, i), "runs": 2 if tier == "quick" else 12} for i in range(4 if tier == "quick" else nproc)]
     return specs
 
 
